@@ -65,6 +65,9 @@ func genGoAny(t *rapid.T) GoAnyCase {
 	c := GoAnyCase{Path: base.Path, ViaFile: rapid.IntRange(0, 6).Draw(t, "viaFile") == 6}
 	var b strings.Builder
 	b.WriteString(base.Code)
+	if !strings.HasSuffix(base.Code, "\n") {
+		b.WriteString("\n\n")
+	}
 	seen := map[int]bool{}
 	for _, k := range picks {
 		if seen[k] {
@@ -101,9 +104,36 @@ type GoProject struct {
 	Files  []GoFile `json:"files"`
 	// Extra: files that declare nothing (a doc.go with the package clause only)
 	Extra map[string]string `json:"extra,omitempty"`
-	// CliForm: how the plugin is given the project directory (cwd is always the project):
-	// 0 "-p .", 1 "--path .", 2 no option (the default), 3 "-p <absolute directory>", 4 "--path=./"
+	// CliForm: how the plugin is given the project directory (cwd is the project unless said otherwise):
+	// 0 "-p .", 1 "--path .", 2 no option (the default), 3 "-p <absolute directory>", 4 "--path=./",
+	// 5 "-p=.", 6 "-p proj" from the parent directory, 7 "-f -l go -p ." (options that change nothing), 8 "-p <absolute directory>/"
 	CliForm int `json:"cli_form,omitempty"`
+	// second round
+	// ModForm: layout of the first line of go.mod (always `module example.org/proj`): 0 plain, 1 blanks at its end, 2 CRLF,
+	// 3 several blanks after the keyword, 4 a tab after the keyword... the module path is what follows the keyword, trimmed
+	ModForm int `json:"mod_form,omitempty"`
+	// Noise: files next to the sources whose names do not end in .go (some hold Go text that declares types)
+	Noise map[string]string `json:"noise,omitempty"`
+	// OnlyFile: the analysis is given the path of the first file instead of the directory; the model is that file's
+	OnlyFile bool `json:"only_file,omitempty"`
+	// Again: another text of the same length under the path of the first file (the names of its types differ): go_seq analyses it
+	// after all files with the same front-end objects
+	Again *GoFile `json:"again,omitempty"`
+}
+
+var goNoise = map[string]string{
+	"notes.go.txt":         "this is not Go\n",
+	"old/legacy.go.bak":    "package legacy\n\ntype LegacyBak struct {\n\tname string\n}\n",
+	"pkg/stack/main.gox":   "package stack\n\ntype FromGox struct{}\n",
+	"README.md":            "# type ReadMe struct{}\n",
+	"pkg/go":               "package stack\n\ntype NoExtension struct{}\n",
+	"internal/.go.swp":     "\x00\x01binary",
+	"cmd/tool-x/Makefile":  "all:\n\tgo build ./...\n",
+	"scripts/gen.go.tmpl":  "package {{.Pkg}}\n\ntype {{.Name}} struct{}\n",
+	"pkg/stack/UPPER.GO":   "package stack\n\ntype UpperCaseExtension struct{}\n",
+	"docs/design.golang":   "type Design struct{}\n",
+	"pkg/stack/stack.go~":  "package stack\n\ntype Backup struct{}\n",
+	"internal/app/gofiles": "not go\n",
 }
 
 func genGoProject(t *rapid.T) GoProject {
@@ -115,14 +145,25 @@ func genGoProject(t *rapid.T) GoProject {
 	for i := 0; i < n; i++ {
 		prefix := string(rune('A' + i))
 		spec := drawGoSpec(t)
-		if spec.SharedName {
+		if spec.SharedName || spec.SharedFunc {
 			spec.Dir = i // one directory per file that declares the shared name: a package declares a name once
 		}
 		name := strings.ToLower(prefix) + "_file.go"
 		if rapid.IntRange(0, 5).Draw(t, "testFileName") == 5 {
 			name = strings.ToLower(prefix) + "_file_test.go"
 		}
+		if rapid.IntRange(0, 5).Draw(t, "otherFileName") == 5 {
+			name = strings.ToLower(prefix) + []string{".gen.go", "-File.go", ".v2.x.go", "_go.go", " file.go", "_linux_amd64.go"}[rapid.IntRange(0, 5).Draw(t, "fileNameForm")]
+		}
+		if spec.SharedName || spec.SharedFunc {
+			spec.DirAlt = 0
+		}
 		p.Files = append(p.Files, renderGo(spec, prefix, name))
+		if i == 0 && rapid.IntRange(0, 2).Draw(t, "sameLengthVariant") == 2 {
+			spec.Variant = true
+			again := renderGo(spec, prefix, name)
+			p.Again = &again
+		}
 	}
 	if rapid.IntRange(0, 3).Draw(t, "docFile") == 3 {
 		// the first or a later file of the walk
@@ -132,13 +173,69 @@ func genGoProject(t *rapid.T) GoProject {
 	if rapid.IntRange(0, 1).Draw(t, "cliOptionDrawn") == 1 {
 		p.CliForm = rapid.IntRange(0, 4).Draw(t, "cliForm")
 	}
+	if rapid.IntRange(0, 3).Draw(t, "otherCliOption") == 3 {
+		p.CliForm = rapid.IntRange(5, 8).Draw(t, "otherCliForm")
+	}
+	if p.Module != "" && rapid.IntRange(0, 2).Draw(t, "otherGoModLayout") == 2 {
+		p.ModForm = rapid.IntRange(1, 5).Draw(t, "goModForm")
+	}
+	if rapid.IntRange(0, 2).Draw(t, "noiseFiles") == 2 {
+		keys := make([]string, 0, len(goNoise))
+		for k := range goNoise {
+			keys = append(keys, k)
+		}
+		sort.Strings(keys)
+		p.Noise = map[string]string{}
+		for _, k := range rapid.SliceOfNDistinct(rapid.IntRange(0, len(keys)-1), 1, 5, func(i int) int { return i }).Draw(t, "noise") {
+			p.Noise[keys[k]] = goNoise[keys[k]]
+		}
+	}
+	p.OnlyFile = rapid.IntRange(0, 9).Draw(t, "onlyTheFirstFile") == 9
 	return p
+}
+
+func (p GoProject) goMod() string {
+	m := p.Module
+	switch p.ModForm {
+	case 1:
+		return "module " + m + "  \t\n\ngo 1.18\n"
+	case 2:
+		return "module " + m + "\r\n\r\ngo 1.18\r\n"
+	case 3:
+		return "module    " + m + "\n\ngo 1.18\n"
+	case 4:
+		return "module \t" + m + "\n\ngo 1.18\n\nrequire (\n\tgithub.com/acme/widget v1.2.3\n\texample.org/lib/v2 v2.0.1 // indirect\n)\n"
+	case 5:
+		return "module " + m + "\n"
+	}
+	return "module " + m + "\n\ngo 1.18\n"
+}
+
+// judged: the files whose declarations the analysis must list
+func (p GoProject) judged() GoProject {
+	if p.OnlyFile {
+		q := p
+		q.Files = p.Files[:1]
+		return q
+	}
+	return p
+}
+
+// target: the path handed to the analysis, relative to the project directory
+func (p GoProject) target() string {
+	if p.OnlyFile {
+		return p.Files[0].Path
+	}
+	return "."
 }
 
 func (p GoProject) tree() map[string]string {
 	files := map[string]string{}
+	for path, code := range p.Noise {
+		files[path] = code
+	}
 	if p.Module != "" {
-		files["go.mod"] = "module " + p.Module + "\n\ngo 1.18\n"
+		files["go.mod"] = p.goMod()
 	}
 	for _, f := range p.Files {
 		files[f.Path] = f.Code
@@ -162,29 +259,35 @@ func exported(name string) bool { return name != "" && unicode.IsUpper(rune(name
 // judgeGoDs judges the flattened list CommonAnalysis returns: the data structures of every file plus one
 // entry per exported top-level function (BuildMethodDs keeps exported functions only; the others are not judged).
 func judgeGoDs(ds []core_domain.CodeDataStruct, p GoProject) string {
-	fnByName := map[string]GoFunc{}
+	// a name may be declared in several directories: the declarations of one name are paired one-to-one with the entries of that name
+	wantsOf := map[string][]GoFunc{}
 	var wantFn []string
 	for _, f := range p.Files {
 		for _, fn := range f.Funcs {
 			if fn.Recv == "" && exported(fn.Name) {
-				fnByName[fn.Name] = fn
+				wantsOf[fn.Name] = append(wantsOf[fn.Name], fn)
 				wantFn = append(wantFn, fn.Name)
 			}
 		}
 	}
 	isFn := map[string]bool{}
+	gotOf := map[string][]core_domain.CodeDataStruct{}
 	var gotFn []string
 	for _, d := range ds {
-		if _, ok := fnByName[d.NodeName]; ok {
+		if _, ok := wantsOf[d.NodeName]; ok {
 			isFn[d.NodeName] = true
 			gotFn = append(gotFn, d.NodeName)
-			if msg := judgeCalls("function "+d.NodeName, d.FunctionCalls, fnByName[d.NodeName]); msg != "" {
-				return msg
-			}
+			gotOf[d.NodeName] = append(gotOf[d.NodeName], d)
 		}
 	}
 	if msg := sameMultiset("exported top-level functions", gotFn, wantFn); msg != "" {
 		return msg
+	}
+	for _, name := range sortedKeys(counts(wantFn)) {
+		ws, gs := wantsOf[name], gotOf[name]
+		if msg := pairUp(len(ws), len(gs), func(i, j int) string { return judgeCalls("function "+name, gs[j].FunctionCalls, ws[i]) }); msg != "" {
+			return msg
+		}
 	}
 	return judgeStructs(ds, p.Files, true, isFn)
 }
@@ -216,9 +319,23 @@ func projectVerdict(p GoProject) pbt.Verdict {
 		v.Classes = append(v.Classes, "file_with_package_clause_only")
 	}
 	declaredIn := map[string]int{}
+	if p.ModForm > 0 {
+		v.Classes = append(v.Classes, fmt.Sprintf("go.mod_layout=%d", p.ModForm))
+	}
+	if len(p.Noise) > 0 {
+		v.Classes = append(v.Classes, "files_whose_names_only_resemble_*.go")
+	}
+	if p.OnlyFile {
+		v.Classes = append(v.Classes, "path_of_one_file_given")
+	}
+	if p.Again != nil {
+		v.Classes = append(v.Classes, "same_path_other_text_of_same_length")
+	}
 	for _, f := range p.Files {
 		if strings.HasSuffix(f.Path, "_test.go") {
 			v.Classes = append(v.Classes, "file_named_*_test.go")
+		} else if !strings.HasSuffix(f.Path, "_file.go") {
+			v.Classes = append(v.Classes, "other_file_names")
 		}
 		for _, s := range f.Structs {
 			declaredIn[s.Name]++
@@ -229,6 +346,15 @@ func projectVerdict(p GoProject) pbt.Verdict {
 			v.Classes = append(v.Classes, "type_name_declared_in_several_files")
 			break
 		}
+	}
+	nSetup := 0
+	for _, fn := range all.Funcs {
+		if fn.Recv == "" && fn.Name == "Setup" {
+			nSetup++
+		}
+	}
+	if nSetup > 1 {
+		v.Classes = append(v.Classes, "function_name_declared_in_several_files")
 	}
 	return v
 }
@@ -243,20 +369,60 @@ func checkGoProject(p GoProject) pbt.Verdict {
 	ast_go.VerifResetAstGo()
 	var ds []core_domain.CodeDataStruct
 	if pn := call(func() {
-		ds = analysis.CommonAnalysis(new(bytes.Buffer), dir, new(goapp.GoIdentApp), cocafile.GoFileFilter, true)
+		ds = analysis.CommonAnalysis(new(bytes.Buffer), filepath.Join(dir, filepath.FromSlash(p.target())), new(goapp.GoIdentApp), cocafile.GoFileFilter, true)
 	}); pn != "" {
-		return pbt.Fail("analysis.CommonAnalysis (Go) panicked: %s\n%s", pn, p.render())
+		return pbt.Fail("analysis.CommonAnalysis (Go) panicked: %s\n%s", strings.ReplaceAll(pn, dir, "<dir>"), p.render())
 	}
-	if msg := judgeGoDs(ds, p); msg != "" {
+	if msg := judgeGoDs(ds, p.judged()); msg != "" {
 		return pbt.Fail("analysis.CommonAnalysis (Go): %s\n%s", msg, p.render())
+	}
+	// the front-end object the way CommonAnalysis sets it up (module name read from go.mod), file by file: the import
+	// sources are relative to the module, which the flattened list above does not show
+	ast_go.VerifResetAstGo()
+	app := new(goapp.GoIdentApp)
+	if pn := call(func() { app.AnalysisPackageManager(dir) }); pn != "" {
+		return pbt.Fail("GoIdentApp.AnalysisPackageManager panicked: %s\n--- go.mod\n%s%s", strings.ReplaceAll(pn, dir, "<dir>"), p.goMod(), p.render())
+	}
+	for _, f := range p.Files {
+		var res core_domain.CodeContainer
+		path := filepath.Join(dir, filepath.FromSlash(f.Path))
+		if pn := call(func() {
+			app.SetExtensions(app.IdentAnalysis(f.Code, path))
+			res = app.Analysis(f.Code, path)
+		}); pn != "" {
+			return pbt.Fail("GoIdentApp.Analysis after AnalysisPackageManager panicked on %s: %s\n%s", f.Path, strings.ReplaceAll(pn, dir, "<dir>"), p.render())
+		}
+		if msg := judgeContainer(res, f, p.Module); msg != "" {
+			return pbt.Fail("GoIdentApp.Analysis after AnalysisPackageManager (go.mod: %q), %s: %s\n%s", p.goMod(), f.Path, msg, p.render())
+		}
 	}
 	return projectVerdict(p)
 }
 
 // runPlugin runs a plugin binary in dir and decodes the report it writes.
-func runPlugin(binary, report, dir string, form int) ([]core_domain.CodeDataStruct, string) {
-	args := [][]string{{"analysis", "-p", "."}, {"analysis", "--path", "."}, {"analysis"}, {"analysis", "-p", dir}, {"analysis", "--path=./"}}[form%5]
-	res, err := cli.Run(binary, dir, nil, args...)
+func runPlugin(binary, report, dir string, form int, target string) ([]core_domain.CodeDataStruct, string) {
+	form = form % 9
+	if target != "." && (form == 2 || form == 4) {
+		form = 0 // no way to name a file with the default
+	}
+	rel := func(prefix string) string {
+		if target == "." {
+			return prefix
+		}
+		return strings.TrimSuffix(prefix, ".") + target
+	}
+	cwd := dir
+	args := [][]string{{"analysis", "-p", rel(".")}, {"analysis", "--path", rel("./")}, {"analysis"}, {"analysis", "-p", filepath.Join(dir, filepath.FromSlash(target))}, {"analysis", "--path=./"},
+		{"analysis", "-p=" + rel("./")}, nil, {"analysis", "-f", "-l", "go", "-p", rel(".")}, {"analysis", "-p", filepath.Join(dir, filepath.FromSlash(target)) + "/"}}[form]
+	if form == 8 && target != "." {
+		args = []string{"analysis", "--force", "--lang=python", "--path", filepath.Join(dir, filepath.FromSlash(target))}
+	}
+	if form == 6 {
+		// from the parent directory; the report goes to the working directory
+		cwd = filepath.Dir(dir)
+		args = []string{"analysis", "-p", filepath.Join(filepath.Base(dir), filepath.FromSlash(target))}
+	}
+	res, err := cli.Run(binary, cwd, nil, args...)
 	if err != nil {
 		panic("c20: cannot run " + binary + ": " + err.Error())
 	}
@@ -266,7 +432,7 @@ func runPlugin(binary, report, dir string, form int) ([]core_domain.CodeDataStru
 	if res.ExitCode != 0 || strings.Contains(res.Stderr, "panic:") {
 		return nil, fmt.Sprintf("the analysis command failed (exit %d)\nstderr: %s", res.ExitCode, tail(res.Stderr, 1500))
 	}
-	data, rerr := os.ReadFile(filepath.Join(dir, "coca_reporter", report))
+	data, rerr := os.ReadFile(filepath.Join(cwd, "coca_reporter", report))
 	if rerr != nil {
 		return nil, fmt.Sprintf("the analysis command wrote no coca_reporter/%s: %v\nstdout: %s", report, rerr, tail(res.Stdout, 600))
 	}
@@ -285,18 +451,19 @@ func tail(s string, n int) string {
 }
 
 func checkGoCLI(p GoProject) pbt.Verdict {
-	dir := cli.Scratch("c20gocli")
-	defer os.RemoveAll(dir)
+	scratch := cli.Scratch("c20gocli")
+	defer os.RemoveAll(scratch)
+	dir := filepath.Join(scratch, "proj") // its parent is the working directory of one CLI form
 	cli.WriteTree(dir, p.tree())
-	ds, why := runPlugin("coca_go", "godeps.json", dir, p.CliForm)
+	ds, why := runPlugin("coca_go", "godeps.json", dir, p.CliForm, p.target())
 	if why != "" {
-		return pbt.Fail("analysis/golang: %s\n%s", why, p.render())
+		return pbt.Fail("analysis/golang: %s\n%s", strings.ReplaceAll(why, dir, "<dir>"), p.render())
 	}
-	if msg := judgeGoDs(ds, p); msg != "" {
+	if msg := judgeGoDs(ds, p.judged()); msg != "" {
 		return pbt.Fail("analysis/golang, godeps.json: %s\n%s", msg, p.render())
 	}
 	v := projectVerdict(p)
-	v.Classes = append(v.Classes, fmt.Sprintf("cli_form=%d", p.CliForm%5))
+	v.Classes = append(v.Classes, fmt.Sprintf("cli_form=%d", p.CliForm%9))
 	return v
 }
 
@@ -304,6 +471,22 @@ type PyProject struct {
 	Modules []PyModule `json:"modules"` // in the order in which the directory walk meets them
 	// CliForm: as for GoProject
 	CliForm int `json:"cli_form,omitempty"`
+	// Noise (second round): files next to the modules whose names do not end in .py (some hold Python text that declares classes)
+	Noise map[string]string `json:"noise,omitempty"`
+}
+
+var pyNoise = map[string]string{
+	"notes.py.txt":        "class InTextFile:\n    pass\n",
+	"pkg/models.py.bak":   "class Backup:\n    def old(self):\n        pass\n",
+	"pkg/stubs.pyi":       "class Stub:\n    def typed(self) -> int: ...\n",
+	"pkg/cache.pyc":       "\x00\x01\x02not python",
+	"pkg/sub/script.pyw":  "class Windowed:\n    pass\n",
+	"README.md":           "# class ReadMe:\n",
+	"pkg/py":              "class NoExtension:\n    pass\n",
+	"pkg/sub/UPPER.PY":    "class UpperCaseExtension:\n    pass\n",
+	"pkg/template.py.j2":  "class {{ name }}:\n    pass\n",
+	"pkg/sub/views.py~":   "class EditorBackup:\n    pass\n",
+	"requirements.python": "flask\n",
 }
 
 func genPyProject(t *rapid.T) PyProject {
@@ -314,6 +497,10 @@ func genPyProject(t *rapid.T) PyProject {
 		path := []string{"app.py", "pkg/models.py", "pkg/sub/views.py"}[i]
 		if rapid.IntRange(0, 5).Draw(t, "otherModuleName") == 5 {
 			path = []string{"setup.py", "pkg/__init__.py", "tests/test_views.py"}[i]
+		}
+		if rapid.IntRange(0, 5).Draw(t, "unusualModuleName") == 5 {
+			// a directory whose name ends in .py, names with dots, dashes, blanks and capitals
+			path = []string{"vendor.py/lib.py", "pkg/models.v2.py", "pkg/sub/Test-Views 2.py"}[i]
 		}
 		p.Modules = append(p.Modules, renderPy(drawPySpec(t), prefix, path))
 	}
@@ -335,11 +522,28 @@ func genPyProject(t *rapid.T) PyProject {
 	if rapid.IntRange(0, 1).Draw(t, "cliOptionDrawn") == 1 {
 		p.CliForm = rapid.IntRange(0, 4).Draw(t, "cliForm")
 	}
+	if rapid.IntRange(0, 3).Draw(t, "otherCliOption") == 3 {
+		p.CliForm = rapid.IntRange(5, 8).Draw(t, "otherCliForm")
+	}
+	if rapid.IntRange(0, 2).Draw(t, "noiseFiles") == 2 {
+		keys := make([]string, 0, len(pyNoise))
+		for k := range pyNoise {
+			keys = append(keys, k)
+		}
+		sort.Strings(keys)
+		p.Noise = map[string]string{}
+		for _, k := range rapid.SliceOfNDistinct(rapid.IntRange(0, len(keys)-1), 1, 5, func(i int) int { return i }).Draw(t, "noise") {
+			p.Noise[keys[k]] = pyNoise[keys[k]]
+		}
+	}
 	return p
 }
 
 func (p PyProject) tree() map[string]string {
 	files := map[string]string{}
+	for path, code := range p.Noise {
+		files[path] = code
+	}
 	for _, m := range p.Modules {
 		files[m.Path] = m.Code
 	}
@@ -424,6 +628,9 @@ func pyProjectVerdict(p PyProject) pbt.Verdict {
 	v := pbt.Verdict{}
 	v.Classes, v.NonTrivial = pyClasses(all)
 	v.Classes = append(v.Classes, fmt.Sprintf("modules=%d", len(p.Modules)))
+	if len(p.Noise) > 0 {
+		v.Classes = append(v.Classes, "files_whose_names_only_resemble_*.py")
+	}
 	declaredIn := map[string]int{}
 	for _, m := range p.Modules {
 		for _, c := range m.Classes {
@@ -431,6 +638,9 @@ func pyProjectVerdict(p PyProject) pbt.Verdict {
 		}
 		if strings.HasSuffix(m.Path, "__init__.py") || strings.HasPrefix(m.Path, "tests/") || m.Path == "setup.py" {
 			v.Classes = append(v.Classes, "module_named_"+filepath.Base(m.Path))
+		}
+		if m.Path == "vendor.py/lib.py" || m.Path == "pkg/models.v2.py" || m.Path == "pkg/sub/Test-Views 2.py" {
+			v.Classes = append(v.Classes, "module_named_"+m.Path)
 		}
 	}
 	for _, name := range sortedKeys(declaredIn) {
@@ -469,10 +679,11 @@ func checkPyCLI(p PyProject) pbt.Verdict {
 		pbt.Count("python_rejected_by_shipped_parser", 1)
 		return pbt.Verdict{Skip: true}
 	}
-	dir := cli.Scratch("c20pycli")
-	defer os.RemoveAll(dir)
+	scratch := cli.Scratch("c20pycli")
+	defer os.RemoveAll(scratch)
+	dir := filepath.Join(scratch, "proj") // its parent is the working directory of one CLI form
 	cli.WriteTree(dir, p.tree())
-	ds, why := runPlugin("coca_py", "pydeps.json", dir, p.CliForm)
+	ds, why := runPlugin("coca_py", "pydeps.json", dir, p.CliForm, ".")
 	if why != "" {
 		return pbt.Fail("analysis/python: %s\n%s", why, p.render())
 	}
@@ -480,7 +691,7 @@ func checkPyCLI(p PyProject) pbt.Verdict {
 		return pbt.Fail("analysis/python, pydeps.json: %s\n%s", msg, p.render())
 	}
 	v := pyProjectVerdict(p)
-	v.Classes = append(v.Classes, fmt.Sprintf("cli_form=%d", p.CliForm%5))
+	v.Classes = append(v.Classes, fmt.Sprintf("cli_form=%d", p.CliForm%9))
 	return v
 }
 
@@ -488,12 +699,13 @@ func checkPyCLI(p PyProject) pbt.Verdict {
 
 func init() {
 	pbt.SetProperty("C20")
-	pbt.Describe("rapid-generated sources with ground truth. Go files: package clause, 0-4 imports (plain, alias, dot, blank; single or grouped; pairs of paths with the same last element), 1-4 structs with 0-4 fields of ident / pointer / slice / selector / func types (incl. `a, b T`, tags and embedded fields), type names that are a prefix or a suffix of another type name, 0-2 interfaces with 0-3 methods, 0-3 methods per struct on value / pointer / unnamed receivers (method names also used by free functions and by other structs), 0-3 top-level functions with named, grouped or unnamed parameters and results (init possibly twice), bodies of X.F() call statements on packages, receivers, parameters and local variables assigned further up, defer, assignments, unqualified calls, declarations and returns; declarations in usual or shuffled order (methods before their type) or in one type(...) group; every text is checked with go/parser. Go projects: 1-3 such files (+ go.mod), a type name declared in files of several directories, a file named *_test.go, a file with nothing but a package clause. Python modules: 0-4 imports at the top and 0-2 between or after the definitions (import a.b / as c / from x import y, z / parenthesised), 0-4 classes (bases, one-line or multi-line docstring containing the text of a class and a def, attributes, 0-4 methods, an inner class, a property with getter and setter of one name, a comment at column 0 or a line of blanks between the methods), 0-3 functions, decorators with and without arguments on all three (optionally a comment line before the def), nested defs, async def, return annotations, signatures spread over several lines, one-line defs, bodies with if/for/try/with/while blocks, three indentation styles, LF or CRLF, main guard; texts the shipped Python parser rejects are skipped and counted. Python projects: 1-3 modules named app.py / pkg/models.py / pkg/sub/views.py or setup.py / pkg/__init__.py / tests/test_views.py, optional empty package markers, a class name and a capitalised function name declared in several modules. Oracles: each struct / interface / class exactly once per declaration under its own name with its fields (name, type kind, type text), method set, decorators; each top-level function once per declaration with its parameters; each import once (source, alias); each X.F() call statement recorded as often as written; nested defs tolerated as extra entries; declarations of one name (in several files, or getter/setter, or init) are paired one-to-one with the entries of that name. Entry points: CocagoParser.ProcessString / ProcessFile, GoIdentApp.Analysis / IdentAnalysis, PythonIdentApp.Analysis, analysis.CommonAnalysis, and the binaries of analysis/golang and analysis/python (godeps.json / pydeps.json; -p, --path, default and absolute path). Sequences: go_seq uses one CocagoParser and one GoIdentApp for all files of a project and the first file again, and re-reads every earlier result at the end; one py_module case in three analyses a second module / an empty module / the same module afterwards without any reset and re-reads the first result. go_any / py_any add constructs outside the modelled subset and assert crash-freedom only. Non-trivial: Go: >= 2 type declarations of which >= 2 have methods; Python: >= 2 classes and >= 1 decorated definition; *_any: >= 2 extra constructs. Distinct = hash of the case.",
-		"type texts follow the model's own convention as pinned by the repository's golden files: element name without * or [], `func` for function types, TypeType Identify/Star/ArrayType/Function/empty; an embedded field has the empty name, like an unnamed parameter",
+	pbt.Describe("rapid-generated sources with ground truth. Go files: package clause, 0-4 imports (plain, alias, dot, blank; single or grouped; pairs of paths with the same last element; one path under two names; paths as raw strings), 0-4 structs with 0-4 fields of ident / pointer / slice / selector / func / interface{} types (incl. `a, b T`, tags and embedded fields), type names that are a prefix or a suffix of another type name, 0-2 interfaces with 0-3 methods, 0-3 methods per struct on value / pointer / unnamed receivers (receiver names r, s, this, self, _, ...; receiver type optionally in parentheses; method names also used by free functions and by other structs), 0-3 top-level functions with named, grouped or unnamed parameters and results (init possibly twice; a declaration without body), bodies of X.F() call statements on packages, receivers, parameters and local variables assigned further up, with arguments of every expression kind except function literals, defer, assignments (:=, =, +=, two values from a call, to a field, to _), var declarations, unqualified calls and returns; declarations in usual or shuffled order (methods before their type) or in one type(...) group. Names (types, fields, parameters, methods, functions): unexported, non-ASCII letters, underscores and digits, one letter, blank, > 100 bytes, words of the model (Struct, method, Default, Type, func_). One case in twelve goes past 8 / 16 elements of every list (up to 13 structs, 6 interfaces, 12 functions, 17 methods and 18 fields of one struct, 11 parameters, 35 statements, 19 imports, 15 interface methods). Layout, in one case of four: CRLF, byte order mark, no final newline, leading blank lines, doc / trailing / block comments between tokens holding the text of declarations, struct types and bodies on one line with ;, parameters one per line, a comment line of 70 000 bytes. Files without struct (interfaces and functions only). Every text is checked with go/parser. Go projects: 1-3 such files (+ go.mod whose first line is written with trailing blanks, CRLF, several blanks or a tab after the keyword, a require block), directories pkg/stack, internal/app/svc, cmd/tool-x, api.v2, vendor/nats.go (a directory named like a Go file), pkg/x_test, Internal/Ünï; file names *_file.go, *_test.go (optionally package <p>_test), *.gen.go, *-File.go, *.v2.x.go, *_go.go, names with a blank, *_linux_amd64.go; a type name and an exported function name declared in files of several directories; a file with nothing but a package clause; files whose names only resemble *.go (notes.go.txt, legacy.go.bak, main.gox, UPPER.GO, stack.go~, gen.go.tmpl, a file called go) next to them; the analysis given the directory or the path of one file. Python modules: 0-4 imports at the top and 0-2 between or after the definitions (import a.b / as c / from x import y, z / parenthesised, also over several lines with a trailing comma / import * / names with as), imports inside bodies and in try / except at module level, 0-4 classes (bases incl. (), dotted, subscripted, keyword, trailing comma, over two lines; one-line or multi-line docstring containing the text of a class and a def, attributes, 0-4 methods, an inner class - optionally decorated, called Meta in every class, holding a class of its own, followed by a second inner class - with further methods of the outer class after it, a property with getter and setter of one name, a comment at column 0 or a line of blanks between the methods, `class X: pass`), 0-3 functions, 0-2 decorators with and without arguments on all three (arguments: keyword, list, dict, call, star, double star, strings with commas, brackets and blanks; optionally one per line; optionally a comment line or an empty line before the def), nested defs (optionally decorated), a definition inside `if True:` at module level, async def, return annotations, signatures spread over several lines or written with blanks inside the parentheses, one-line defs, bodies with if/for/try/with/while blocks, strings that contain #, brackets, quotes and the text of definitions, continuation lines, semicolons; names with leading underscore, lower case, one letter, non-ASCII letters, > 100 bytes, containing keywords (from_json, class_name, print_all, True_, Def, Import_). One case in sixteen goes past 8 / 16 / 32 elements (up to 13 classes, 20 methods, 15 functions, 18 imports, 7 decorators; modules of several hundred lines, i.e. past 64, 128 and 256 queued lexer tokens). Layout: four indentation styles (4 blanks, 2 blanks, tab, 2 blanks + tab) or a width of its own for every block, LF or CRLF, blanks at line ends, comments after def / class lines, non-ASCII text in comments and strings, a comment line of 70 000 bytes, first line of blanks or #!, text ending without newline / with a comment without newline / with a line of blanks without newline / with empty lines / with an indented comment, main guard, module-level strings that hold the text of decorated definitions; texts the shipped Python parser rejects are skipped and counted (py_module, py_project, py_cli; about 2 %, all of them texts ending in a line of blanks without newline). Python projects: 1-3 modules named app.py / pkg/models.py / pkg/sub/views.py or setup.py / pkg/__init__.py / tests/test_views.py or vendor.py/lib.py / pkg/models.v2.py / `pkg/sub/Test-Views 2.py`, optional empty package markers, a class name and a capitalised function name declared in several modules, files whose names only resemble *.py next to them. Oracles: each struct / interface / class exactly once per declaration under its own name with its fields (name, type kind, type text), method set, decorators; each top-level function once per declaration with its parameters; each import once (source, alias; after AnalysisPackageManager relative to the module of go.mod); each X.F() call statement recorded as often as written; nested defs tolerated as extra entries; declarations of one name (in several files, or getter/setter, or init, or inner classes called Meta) are paired one-to-one with the entries of that name. Entry points: CocagoParser.ProcessString / ProcessFile, GoIdentApp.Analysis / IdentAnalysis (also after AnalysisPackageManager on the project directory), PythonIdentApp.Analysis, analysis.CommonAnalysis, and the binaries of analysis/golang and analysis/python (godeps.json / pydeps.json; -p . / --path . / default / absolute path / --path=./ / -p=./ / -p proj from the parent directory / with -f -l go / absolute path with trailing slash / the path of one file). Sequences: go_seq uses one CocagoParser and one GoIdentApp for all files of a project and the first file again, then (one project in three) another text of the same length under the path of the first file with other type names, and re-reads every earlier result at the end; one py_module case in three analyses a second module / an empty module / the same module / the same module under other names and the same path afterwards with the same PythonIdentApp and without any reset, and re-reads the first result. go_any / py_any add constructs outside the modelled subset and assert crash-freedom only. Non-trivial: Go: >= 2 type declarations of which >= 2 have methods; Python: >= 2 classes and >= 1 decorated definition; *_any: >= 2 extra constructs. Distinct = hash of the case.",
+		"type texts follow the model's own convention as pinned by the repository's golden files: element name without * or [], `func` for function types, interface{} / interface{} for the empty interface type (testdata/regression/coll_stack.json), TypeType Identify/Star/ArrayType/Function/empty; an embedded field has the empty name, like an unnamed parameter",
 		"import sources follow BuildImport: module prefix removed, / replaced by .",
-		"a deferred X.F() may be recorded once or not at all; entries for assignments, returns and unqualified calls are not judged; parameters of methods are not judged (the statement names the parameters of top-level functions)",
-		"godeps.json / pydeps.json list only top-level functions with a capitalised name (BuildMethodDs); other functions are judged on the in-process entry points only",
-		"every generated Go text passes go/parser (a rejection aborts the run as a generator bug)")
+		"a deferred X.F() may be recorded once or not at all; entries for assignments, returns and unqualified calls are not judged; parameters of methods are not judged (the statement names the parameters of top-level functions); decorator arguments are compared as one text per decorator",
+		"godeps.json / pydeps.json list only top-level functions with a capitalised name (BuildMethodDs); other functions are judged on the in-process entry points only; function names begin with an ASCII letter (BuildMethodDs looks at the first byte)",
+		"every generated Go text passes go/parser (a rejection aborts the run as a generator bug); py_plain modules are valid Python by construction (C20_PYTHON3_ALL=1 shows every one of them to python3) and are judged without asking the shipped parser",
+		"kept out because the statement leaves the expected value open: anonymous struct and non-empty interface types as field / parameter types, embedded interfaces, map / chan / variadic / array / pointer-to-slice types, function literals as arguments, call statements inside if / for / switch blocks, X.y.F() calls on fields, relative Python imports (from . import x), `import a, b`, a module name that is a string prefix but not a path prefix of an import path, go.mod whose first line is not the module line, directories called testData (skipped by the tool on purpose)")
 	pbt.Register("go_file", 3000, 10000, genGoCase, checkGoCase)
 	pbt.Register("go_any", 800, 3000, genGoAny, checkGoAny)
 	pbt.Register("go_project", 400, 1500, genGoProject, checkGoProject)
